@@ -141,6 +141,7 @@ class SLock:
         t.sched.yield_point(("acquire", self.name), lambda: self.holder is None)
         assert self.holder is None
         self.holder = t.tid
+        t.nheld = getattr(t, "nheld", 0) + 1
         t.hist.append(("acquire", self.name))
         if t.sched.on_lock:
             t.sched.on_lock("acquire", t.tid, self.name)
@@ -155,6 +156,7 @@ class SLock:
         if t.sched.on_lock:
             t.sched.on_lock("release", t.tid, self.name)
         self.holder = None
+        t.nheld = max(0, getattr(t, "nheld", 0) - 1)
 
     def locked(self):
         return self.holder is not None or self._real.locked()
@@ -219,7 +221,31 @@ class SCond:
 
 
 class SList(list):
-    """Stand-in for multiprocessing.Manager().list()."""
+    """Stand-in for multiprocessing.Manager().list() (and, in threading mode, for the plain
+    lists of claimed identifiers).  The code only ever touches these lists inside a
+    `with condition:` section; an access made while the thread holds NO lock is a shared
+    operation in its own right and becomes a scheduling point."""
+
+    def _touch(self, op):
+        t = current()
+        if t is None or getattr(t, "nheld", 0) > 0:
+            return
+        t.sched.yield_point(("list", op))
+        t.hist.append(("list", op))
+        if t.sched.on_lock:
+            t.sched.on_lock("list", t.tid, op)
+
+    def append(self, x):
+        self._touch("append")
+        return list.append(self, x)
+
+    def remove(self, x):
+        self._touch("remove")
+        return list.remove(self, x)
+
+    def __contains__(self, x):
+        self._touch("contains")
+        return list.__contains__(self, x)
 
 
 class SManager:
